@@ -100,13 +100,7 @@ theorem verify_rejects_other_replies (h : ¬ Accepted C t cr cl r) :
     exact absurd ⟨pub, enc, shared, hc, hp⟩ h
   | error e =>
     rcases verifyCredentials_err hv with ⟨h1, _, _⟩ | ⟨_, hacc⟩
-    · refine ⟨e, rfl, h1, ?_⟩
-      intro ev hev
-      cases hs : ev.isSendM3 with
-      | false => rfl
-      | true =>
-        exfalso
-        exact h (accepted_of_sent_m3 hev hs)
+    · exact ⟨e, rfl, h1, no_m3_unless_accepted h⟩
     · exact absurd hacc h
 
 /-- the same, through the declarative predicate used by the other theorems -/
